@@ -726,6 +726,9 @@ def run(tier="quick", seed=0):
 
             def send_scp(self, buffer_size, x, y, p, cmd, *a, **k):
                 trace.append(("scp", self.host, x, y, p, int(cmd)))
+                if self.host in unreachable_hosts:
+                    from rig.machine_control.scp_connection import TimeoutError as _ScpTimeout
+                    raise _ScpTimeout("no reply from %s" % self.host)
                 return _scamp.Connection.send_scp(self, buffer_size, x, y, p, cmd, *a, **k)
 
             def read(self, buffer_size, window_size, x, y, p, address, length_bytes):
@@ -739,9 +742,16 @@ def run(tier="quick", seed=0):
         def ip_of(e):
             return "10.%d.%d.1" % e
 
-        def discovered_case(w, h, up, rounds, method):
-            """machine rooted at (0, 0); `up`: the Ethernet chips whose link is up (they get a connection)"""
+        unreachable_hosts = set()
+
+        def discovered_case(w, h, up, rounds, method, unreachable=()):
+            """machine rooted at (0, 0); `up`: the Ethernet chips whose link is up (they get a connection); `unreachable`: those
+            of them whose address the host cannot reach (the board says its link is up, nothing sent to it is answered): such a
+            connection is tried once, dropped, and the board's chips go on being reached over the initial connection"""
             nonlocal ev
+            unreachable_hosts.clear()
+            unreachable_hosts.update(ip_of(e) for e in unreachable)
+            up_reported, up = set(up), set(up) - set(unreachable)
             tiles = board_of_chip(w, h, (0, 0))
             eths = sorted(set(tiles.values()))
             mcm.SCPConnection = Named
@@ -749,7 +759,7 @@ def run(tier="quick", seed=0):
             model = _scamp.Scamp(ctl.structs, w, h, root=(0, 0))
             for e in eths:
                 c = model.chips[e]
-                c.eth_up = e in up
+                c.eth_up = e in up_reported
                 c.ip = sum(int(b) << (8 * i) for i, b in enumerate(ip_of(e).split(".")))
             for xy, c in model.chips.items():
                 c.eth_chip = tiles[xy]
@@ -763,7 +773,8 @@ def run(tier="quick", seed=0):
                 return conn
             ctl.connections[None].model = model
             mcm.SCPConnection = make
-            inputs = {"width": w, "height": h, "root_chip": [0, 0], "ethernet_up": sorted(up), "discover_calls": rounds, "method": method}
+            inputs = {"width": w, "height": h, "root_chip": [0, 0], "ethernet_up": sorted(up_reported), "unreachable_from_the_host": sorted(unreachable),
+                      "discover_calls": rounds, "method": method}
             try:
                 for _ in range(rounds):
                     ctl.discover_connections()
@@ -808,6 +819,10 @@ def run(tier="quick", seed=0):
                     hi += 1
                     for hm in (hmethods if thorough else (hmethods[hi % 3],)):
                         discovered_case(w, h, up, rounds, hm)
+            if len(eths) >= 3:
+                for rounds in (1, 2):
+                    discovered_case(w, h, set(eths), rounds, hmethods[hi % 3], unreachable=(eths[1],))
+                    discovered_case(w, h, set(eths), rounds, hmethods[(hi + 1) % 3], unreachable=(eths[-1], eths[1]))
 
         # ---- layer I: `board` given as an iterable of boards (set_led: "sent to the first board in the iterable") ---------
         mcm.SCPConnection, bmm.SCPConnection = Rec, Rec
@@ -852,9 +867,28 @@ def run(tier="quick", seed=0):
             return [(sim.LAT, _struct.pack("<2x8B2H3I", 0x07, tag, spc, dpc, sy, sx, dy, dx, 0x80, seq, 0x60300000, (133 << 16) | 256, 3) + b"\0" * 16, None)]
         net = sim.SimNet(peer, max_steps=20000)
         with sim.patched(net):
+            # (controllers built and used BEFORE the ones under test: what they put into their own base context stays theirs)
+            pre_m = MachineController("wire-earlier", structs=structs)
+            pre_m.update_current_context(app_id=30, x=9, y=9, p=3)
+            pre_b = BMPController("wire-earlier-bmp")
+            pre_b.update_current_context(cabinet=1, board=3)
             wm = MachineController("wire", structs=structs)
             wb = BMPController("wire-bmp")
             wm._scp_data_length = wb._scp_data_length = 256
+            ev += 1
+            got_ctx = (dict(wm.get_context_arguments()), dict(wb.get_context_arguments()))
+            del seen[:]
+            try:
+                wb.set_led(7, True)
+                wm.send_signal("stop")
+            except Exception as e:      # noqa
+                seen.append(b"")
+            dests = [(d[7], d[6], d[4] & 0x1f) for d in seen if len(d) >= 14]
+            apps = [_struct.unpack_from("<I", d, 18)[0] & 0xff for d in seen[1:2] if len(d) >= 22]
+            if got_ctx != ({"app_id": 66}, {"cabinet": 0, "frame": 0, "board": 0}) or dests[:1] != [(0, 0, 0)] or apps != [66]:
+                note("W", "destination_board", "a controller built after another controller had updated its own base context starts from %r / %r (documented defaults: app_id 66; cabinet, frame, board 0); "
+                     "its first LED command is addressed to %r and its stop signal names application %r" % (got_ctx[0], got_ctx[1], dests[:1], apps),
+                     {"earlier_controller_updates": {"app_id": 30, "x": 9, "y": 9, "p": 3, "cabinet": 1, "board": 3}})
             for v in range(24):
                 for way in ("kw", "ctx", "nested"):
                     for kind in (("core",) if v < 18 else ()) + ("board",):
@@ -916,7 +950,7 @@ def run(tier="quick", seed=0):
                      "inner exit and after every catch. S: nestings of application blocks (id positional / keyword / from context) mixed with argument blocks, every exit path: wire "
                      "log == stop signals, inner first. Q: three context objects (two argument blocks, one application block) created UP FRONT, then every well-nested enter/leave "
                      "program with <= 3 blocks over them (siblings, re-entry, nesting) x every subset (quick: every ninth for 3 blocks) of the points in between at which the context in force is probed; stop signal exactly when the application block is left. G: 12x12, 24x12, 12x24, 36x12, 24x24 SpiNN-5 machines x root chips (0,0),(8,4),(4,8),(1,2) x all / every second / no "
-                     "connection known, every chip, five methods (quick: one of them in rotation), expected board from an own hexagon model. I: set_led with `board` an iterable of boards (6 lists in their own order x keyword / positional / context x one or several LEDs): sent once, to the first board named, over that board's connection, with the mask of all of them. W: every core 0..17 and every board 0..23 x keyword / context / nested contexts through the REAL SCPConnection over a simulated socket: the destination chip and core / board read by hand from the datagram's SDP header are the resolved ones. H: the same question after the REAL discover_connections() (once / twice) on a simulated 12x12, 24x12, 12x24 (thorough 24x24) machine (bounded/_scamp.py answers the probes) whose Ethernet links are up on all / all but the first / every second / only the first board: the connections created are exactly those of the boards that are up and every chip's command goes over its own board's. "
+                     "connection known, every chip, five methods (quick: one of them in rotation), expected board from an own hexagon model. I: set_led with `board` an iterable of boards (6 lists in their own order x keyword / positional / context x one or several LEDs): sent once, to the first board named, over that board's connection, with the mask of all of them. W: every core 0..17 and every board 0..23 x keyword / context / nested contexts through the REAL SCPConnection over a simulated socket: the destination chip and core / board read by hand from the datagram's SDP header are the resolved ones. H: the same question after the REAL discover_connections() (once / twice) on a simulated 12x12, 24x12, 12x24 (thorough 24x24) machine (bounded/_scamp.py answers the probes) whose Ethernet links are up on all / all but the first / every second / only the first board, and with one or two boards that report their link up but cannot be reached from the host (tried once, dropped, their chips reached over the initial connection): the connections created are exactly those of the boards that are up and every chip's command goes over its own board's. "
                      "distinct = (method, ways) / (nesting, exit path) / (machine, root, known set, method)" % (layers, len(methods), len(skipped), "all three" if thorough else "one of three in rotation")),
             "bound": "<= 3 nested blocks, 4 ways of passing, machines up to 24x24 / 36x12, fixed dummy arguments and fixed replies from the recording connection",
             "exhaustive": False, "label": "bounded", "samples": samples[:8], "violations": viol[:6], "seconds": round(time.time() - t0, 2)}
